@@ -20,6 +20,7 @@ RULE = (
     "settings, mesh.settings, delete) in both orders where statements touch the same target, then write(path, debug_path); "
     "executed on the real API and on a plain-Python declaration model; the file is read back by the independent reader. "
     "non-trivial = a program with at least one decoration"
+    " Bases boxes_x/y/z and boxes_rx/ry/rz with every set of <= 3 of the 12 side projections; base hemi_copy (a moved copy of a sphere shape alone)."
 )
 ASSUMPTIONS = [
     "string payloads (settings, geometry properties) are opaque tokens",
